@@ -170,4 +170,39 @@ example :
     let b := brun .and 2 false ⟨[.obj 1], false, none⟩ [.hash, .add [.obj 2], .hash, .finalize, .hash, .add [.obj 3]]
     b.finalized = true ∧ b.cs.length = 2 ∧ b.cached.isSome = true := by decide
 
+/-- **instance caches are transparent: what a restriction matches does not depend on which other restrictions are
+alive when it is built.**  `cachedBuild step s d` builds the description `d` bottom-up through the instance caches
+(`WeakInstMeta`: every constructor call may be answered with an alive instance found by a dict lookup of its
+arguments, children included); `step` / `s` are an arbitrary cache policy and state, constrained only by what a dict
+lookup guarantees (`HitsEqual`: a hit is an instance that compares equal to the one asked for).  The object handed
+out matches exactly what `d` built alone matches — whatever was built before. -/
+theorem instance_cache_transparent {σ : Type} (step : σ → Restr → Option Restr × σ) (hstep : HitsEqual step) (s : σ)
+    (d : Restr) (hd : wf d = true) : SameMatch (cachedBuild step s d).1 d :=
+  fun env x => (cachedBuild_spec step hstep env d s hd).2 x
+
+/-- the instance for the real cache — a dict lookup (hash and `==`) among the alive instances, misses registered: the
+result of building `d` matches the same whatever two sets of instances `alive`, `alive'` were built before -/
+theorem build_history_irrelevant (H : HK → Int) (alive alive' : Alive) (d : Restr) (hd : wf d = true) :
+    SameMatch (cachedBuild (aliveStep H) alive d).1 d ∧
+    SameMatch (cachedBuild (aliveStep H) alive d).1 (cachedBuild (aliveStep H) alive' d).1 := by
+  have h1 := instance_cache_transparent (aliveStep H) (aliveStep_hitsEqual H) alive d hd
+  have h2 := instance_cache_transparent (aliveStep H) (aliveStep_hitsEqual H) alive' d hd
+  exact ⟨h1, fun env x => (h1 env x).trans (h2 env x).symm⟩
+
+/-- not vacuous, both ways: with the AND tree of `c/p[-x,y]` (plain containments) alive, building the tree of
+`c/p[-x(-),y(-)]` (use-dep-default containments over the same flags, same `all`/`negate` shape, same hash) is *not*
+answered from the cache — the containments are unequal — while building `[y,-x]`'s plain tree again is. -/
+example :
+    let x : Str := ['x']
+    let y : Str := ['y']
+    let plain := Restr.bool .and 1 false [.contain [x] false true, .contain [y] true false]
+    let dflt := Restr.bool .and 1 false [.useDefault false [x] true, .useDefault false [y] false]
+    let alive : Alive := ⟨[plain], by decide⟩
+    hkEq (hashKey plain) (hashKey dflt) = true ∧
+    (match (cachedBuild (aliveStep fun _ => 0) alive dflt).1 with
+      | .bool _ _ _ [.useDefault _ _ _, .useDefault _ _ _] => true | _ => false) = true ∧
+    (cachedBuild (aliveStep fun _ => 0) alive dflt).2.val.length = 2 ∧
+    (cachedBuild (aliveStep fun _ => 0) alive plain).2.val.length = 3 := by
+  decide
+
 end Pkgcore.C07
